@@ -109,6 +109,11 @@ Section Object.
   | e_nil : exec [] init
   | e_snoc : forall tr c a c', exec tr c -> step c a c' -> exec (tr ++ [a]) c'.
 
+  (* a segment of a trace, from one configuration to another *)
+  Inductive run : config -> list action -> config -> Prop :=
+  | r_nil : forall c, run c [] c
+  | r_cons : forall c a c1 tr c2, step c a c1 -> run c1 tr c2 -> run c (a :: tr) c2.
+
   (* ---------- the atomic object: the canonical specification every linearizable object refines *)
   Inductive aaction := AInv (t : tid) (o : op) | ALin (t : tid) | ARet (t : tid) (r : ret).
   Inductive astat := AIdle | APending (o : op) | ADone (o : op) (r : ret).
